@@ -361,3 +361,4 @@ def sample_chain_contract(run, it, prop):
 def c16_obligations(run, tier):
     from . import samplers_stage
     samplers_stage.stage_loop(run, "C16")
+    samplers_stage.finalize_adapters(run, make_interp(run))
